@@ -1653,11 +1653,76 @@ Proof.
   destruct (wf_firstn j ds Hitems Hadj) as [Hpre Hpadj].
   assert (E : tlines T st ds = tlines T st (firstn j ds) ++ tlines T st (skipn j ds)).
   { unfold tlines. rewrite <- flat_map_app, firstn_skipn. reflexivity. }
-  rewrite E at 2. rewrite insert_stmt_at.
+  replace (insert_stmt (length (tlines T st (firstn j ds))) c' (tlines T st ds))
+    with (insert_stmt (length (tlines T st (firstn j ds))) c' (tlines T st (firstn j ds) ++ tlines T st (skipn j ds))) by (rewrite <- E; reflexivity).
+  rewrite insert_stmt_at.
+  change (tlines T st (firstn j ds) ++ PStmt [] c' :: tlines T st (skipn j ds))
+    with (tlines T st (firstn j ds) ++ comment_tlines [] None ++ PStmt [] c' :: tlines T st (skipn j ds)).
   rewrite (bad_top_line st (firstn j ds) None c' s (tlines T st (skipn j ds)) Hmerged' Hcr Hst Hpre Hpadj eq_refl Hc').
   - f_equal. f_equal. cbn [clines zlen length]. unfold zlen. cbn [length]. lia.
   - apply (tlines_ok st _ Hst). apply wf_skipn. exact Hitems.
   - exact Hbad.
+Qed.
+
+(* --- contents that the top-level parser rejects *)
+Definition lower_first (l : list Z) : list Z := match l with c :: b => (c + 32) :: b | [] => [] end.
+
+Lemma alias_bad_case ac n rest : wf_type T n = true ->
+  parse_top_line T None ac (kw_using T ++ [32] ++ lower_first (of_string n) ++ rest) = LErr (lower_first (of_string n) ++ rest).
+Proof.
+  intro Hn. destruct (wf_name_head _ _ _ _ _ Hn) as [c [b [E Hc]]]. rewrite E. cbn [lower_first].
+  assert (Hl : is_lower (c + 32) = true) by (unfold is_upper, is_lower in *; lia).
+  unfold parse_top_line. rewrite Hmerged'. cbn [andb].
+  destruct (kw_head (kw_using T) ([32] ++ ((c + 32) :: b) ++ rest) (kwok_using T Hok)) as [c0 [Hh0 Hc0]].
+  rewrite skip_ws_kw by apply (kwok_using T Hok). rewrite (strip_at_lower c0 _ Hh0 Hc0).
+  rewrite (cf_strip (kw_import T) (kw_using T)) by (apply (cf_import_x T Hok); cbn; tauto).
+  rewrite strip_prefix_app. cbn [app]. rewrite tok_sp. unfold tok.
+  rewrite (skip_ws_head (c + 32) ((c + 32) :: b ++ rest) ltac:(cbn [head_is]; apply Z.eqb_refl) (lower_not_ws _ Hl)).
+  unfold raw_type. rewrite (lex_class_none _ _ _ _ ((c + 32) :: b ++ rest) (c + 32)); [reflexivity|cbn [head_is]; apply Z.eqb_refl|apply lower_not_upper; exact Hl].
+Qed.
+
+Lemma attr_unknown ac r : parse_top_line T None ac (64 :: 81 :: r) = LErr (81 :: r).
+Proof.
+  unfold parse_top_line. rewrite Hmerged'. cbn [andb skip_ws]. replace (is_ws 64) with false by reflexivity.
+  cbn [strip_prefix]. replace (64 =? 64) with true by reflexivity. unfold p_attr. cbn [skip_ws]. replace (is_ws 81) with false by reflexivity.
+  assert (Hnone : find_attr (attr_tables T None) (81 :: r) = None).
+  { assert (Hgen : forall tables, (forall c k names n, In (c, k, names) tables -> In n names -> kw_ok n = true) -> find_attr tables (81 :: r) = None).
+    { induction tables as [|[[c k] names] tables IH]; intro Hk; [reflexivity|]. cbn [find_attr].
+      rewrite first_prefix_none.
+      - apply IH. intros c1 k1 names1 n1 Hin Hn1. eapply Hk; [right; exact Hin|exact Hn1].
+      - intros n1 Hn1. specialize (Hk c k names n1 (or_introl eq_refl) Hn1). destruct (kw_shape n1 Hk) as [x [xr [-> [Hx _]]]].
+        cbn [strip_prefix]. destruct (x =? 81) eqn:E; [|reflexivity]. apply Z.eqb_eq in E. subst x. discriminate. }
+    apply Hgen. intros c k names n Hin Hn1. apply (kw_in T Hok).
+    unfold attr_tables in Hin. cbn [app In] in Hin.
+    unfold all_kws, struct_attr_names, field_attr_names. repeat rewrite in_app_iff. cbn [In].
+    repeat (destruct Hin as [Hin|Hin]; [inversion Hin; subst; tauto|]). contradiction. }
+  rewrite Hnone. reflexivity.
+Qed.
+
+Lemma plainc_alias_head n : wf_type T n = true -> plainc (alias_head n) = true.
+Proof.
+  intro Hn. unfold alias_head. rewrite !plainc_app, (plainc_kw _ (kwok_using T Hok)), (plainc_type n Hn). reflexivity.
+Qed.
+Lemma plainc_int_prefix i : plainc (int_prefix i) = true.
+Proof.
+  unfold int_prefix. rewrite plainc_app, (plainc_kw _ (kwok_int T Hok)), andb_true_r. destruct (it_unsigned i); [|reflexivity].
+  rewrite (ok_uprefix T Hok). cbn [plainc forallb]. fold (plain1 (fsi_unsigned_char T)). rewrite (plain_lower _ (ok_uchar_lower T Hok)). reflexivity.
+Qed.
+
+Lemma pline_ok_bad_width n i w : wf_type T n = true -> plainc w = true -> pline_ok (PStmt [] (alias_head n ++ int_prefix i ++ w)) = true.
+Proof.
+  intros Hn Hw. cbn [pline_ok ws_only forallb andb]. unfold alias_head at 1. rewrite <- !app_assoc.
+  rewrite (head_stmt_kw _ _ (kwok_using T Hok)). rewrite !app_assoc, <- !app_assoc.
+  rewrite !plainc_app, (plainc_kw _ (kwok_using T Hok)), (plainc_type n Hn), plainc_int_prefix, Hw. reflexivity.
+Qed.
+
+Lemma pline_ok_bad_case n rest : wf_type T n = true -> plainc rest = true ->
+  pline_ok (PStmt [] (kw_using T ++ [32] ++ lower_first (of_string n) ++ rest)) = true.
+Proof.
+  intros Hn Hr. cbn [pline_ok ws_only forallb andb]. rewrite (head_stmt_kw _ _ (kwok_using T Hok)).
+  rewrite !plainc_app, (plainc_kw _ (kwok_using T Hok)), Hr. cbn [plainc forallb andb]. rewrite andb_true_r.
+  pose proof (plainc_type n Hn) as Hp. destruct (wf_name_head _ _ _ _ _ Hn) as [c [b [E Hc]]]. rewrite E in *. cbn [lower_first].
+  cbn [plainc forallb] in *. apply andb_true_iff in Hp as [_ Hb]. rewrite Hb, andb_true_r. unfold is_upper in Hc. lia.
 Qed.
 End BadLines.
 End Proofs2.
